@@ -4,7 +4,8 @@
   Core-only, executable.
 
   The two models synchronise where the code does:
-  * Subscribe creating the subscriber object (M_reg `sub.tlock` handing out id `me`)          → the M_sub instance starts (`init cap`);
+  * Subscribe creating the subscriber object (M_reg `sub.tlock` handing out id `me`)          → the M_sub instance starts (`createSt`: `init cap`
+    with the closing signal / a cancel that came earlier already visible);
   * `sendMessage` (M_reg `send` with `me` in the snapshot) and the persistent replay (`register`) → `spawn` in M_sub, one per sender;
     `snd` records for every sender started for `me`: the dispatcher that waits for it (none for a replay), the message, and
     its publication id inside M_sub;
@@ -43,6 +44,12 @@ def spawn1 (od : Option Nat) (x : Option GcSub.St × Snd) (m : Nat) : Option GcS
   | some q => (some (spawnSt q), x.2 ++ [(od, m, q.nextPub)])
   | none => x
 
+/-- the subscriber object as Subscribe creates it: `g.closing` may already be closed and the Subscribe context may already be
+    cancelled at that moment (found by the conformance check with the composition: a Subscribe that passed the closed check
+    before Close signalled) -/
+def createSt (cap : Nat) (r : GcReg.St) : GcSub.St :=
+  { GcSub.init cap with gClosing := r.closingSig, ctxDone := r.cancelled.contains r.nextSid }
+
 def exited (q : GcSub.St) (p : Nat) : Bool := q.exits.any (fun e => e.1 == p)
 
 /-- what an M_reg step means for the distinguished subscription; `none`: the step has to wait for M_sub -/
@@ -62,7 +69,7 @@ def effect (me cap : Nat) (r r' : GcReg.St) (a : GcReg.Action) (x : Option GcSub
     | some (.sub _ _ .tlock) =>
       if r.nextSid = me then
         match x.1 with
-        | none => some (some (GcSub.init cap), x.2)   -- the subscriber object of `me` is created
+        | none => some (some (createSt cap r), x.2)   -- the subscriber object of `me` is created
         | some _ => some x                             -- (unreachable: ids are handed out once)
       else some x
     | some (.sub t sid .register) =>
